@@ -35,7 +35,10 @@ def tb_prop(classes, extra_tb=None):
             "trusted_base": TB_COMMON + (extra_tb or []), "assumptions": TB_ASSUME, "extra_obligations": []}
 
 PROPS = {
-    "C01": tb_prop(["C01."]),
+    "C01": {**tb_prop(["C01."]), "layers": ["tb", "cc"],
+            "modes": {"quick": tb_modes()["quick"] + [{"mode": "conc", "args": ["-n", 0, "-actions", 0, "-sm", 0, "-topups", 6], "replayable": False}],
+                      "thorough": tb_modes()["thorough"] + [{"mode": "conc", "args": ["-n", 0, "-actions", 0, "-sm", 0, "-topups", 200, "-workers", 16], "replayable": False}],
+                      "search": tb_modes()["search"] + [{"mode": "conc", "args": ["-n", 0, "-actions", 0, "-sm", 0, "-topups", 40, "-workers", 16], "replayable": False}]}},
     "C02": tb_prop(["C02."]),
     "C03": {**tb_prop(["C03."]), "layers": ["tb", "sm"],
             "modes": {"quick": tb_modes()["quick"] + [{"mode": "sm", "args": ["-n", 2000]}],
